@@ -2206,7 +2206,7 @@ class Gen:
         return {"text": text, "errors": errors, "targets": [i.lean for i in sheet.ITEMS]}
 
 
-SHEETS = ["targets_losses", "targets_dist_public", "targets_jaxtr", "targets_families", "targets_bnafnet", "targets_net", "targets_unwrap", "targets_bisectgen", "targets_bnafinit"]
+SHEETS = ["targets_losses", "targets_dist_public", "targets_jaxtr", "targets_families", "targets_bnafnet", "targets_net", "targets_unwrap", "targets_bisectgen", "targets_bnafinit", "targets_planarinit"]
 
 
 def generate(repo: str) -> dict:
